@@ -17,6 +17,7 @@ import (
 	"fmt"
 
 	"verif/internal/lockstep"
+	"verif/internal/prog"
 	"verif/internal/ref"
 	"verif/internal/rig"
 )
@@ -245,3 +246,35 @@ func ifReads(c *rig.Ctx, ops [][]byte) {
 }
 
 var _ = lockstep.Peek
+
+// debugTwin: the CPU's trace option must not add bus accesses. Two machines run the same
+// program cycle by cycle, one with DebugCPU on; pointers are aimed at OAM with the LCD on, where
+// even a read has an effect (the mode-2 OAM bug), so an extra access shows as different OAM
+// contents or registers.
+func debugTwin(c *rig.Ctx) {
+	c.Require("debug_twin_cycles")
+	c.Part("debug-twin", c.N(24, 300), func(i int64, r *rig.Rng) {
+		p := prog.Generate(r, prog.Options{OAMFocus: true, Hardware: i%3 == 0, AllOpcodes: i%2 == 0, Interrupts: i%4 == 0, CartType: 0})
+		restore := rig.QuietStdout()
+		defer restore()
+		a := rig.MustNew(p.ROM, rig.Opts{})
+		b := rig.MustNew(p.ROM, rig.Opts{DebugCPU: true})
+		n := int(c.N(12000, 40000))
+		for k := 0; k < n; k++ {
+			if a.CPU.XAtBoundary() && !a.CPU.XHalted() && rig.IsUndefinedOpcode(a.PeekOpcode()) && !(a.IRQ.Enabled() && a.IRQ.Pending()) {
+				break
+			}
+			a.Step()
+			b.Step()
+			ra, rb := lockstep.Regs(a), lockstep.Regs(b)
+			oa, ob := a.OAM.XSnapshot(), b.OAM.XSnapshot()
+			if ra != rb || oa != ob {
+				restore()
+				c.Violate("debug-trace-changes-execution", fmt.Sprintf("%s: after %d machine cycles the machine with the CPU trace on differs from the one without (registers %+v vs %+v; OAM equal: %v)", p.Describe(), k+1, rb, ra, oa == ob), nil)
+				return
+			}
+			c.Count("debug_twin_cycles", 1)
+		}
+		c.DistinctOnly(p.Hash)
+	})
+}
